@@ -4,13 +4,17 @@ Driver for the evaluation family (`ev`, property C04), executed by `CtrlVerif.Mo
 
 line := "ev" sys op
 sys  := "LT" p m dt (num den)…  |  "LS" ns p m dt A B C D          (as in the `frd` family)
+      | "LC" p m dt (num den)…          transfer function with complex coefficients: every
+                                        coefficient is a pair `re im`
 op   := "call" k (re im)…                      sys(x) at k points
       | "freq" k w… "X" cnt {h ω re im}…       frequency_response(omega); table of exp(jωh)
       | "dc"                                    dcgain()
       | "poles" …                               see `opPoles`
       | "zeros" …                               see `opZeros`
 answer for call / freq / dc:
-  ok <k> <p> <m> [W w…] { P <sing> <detre> <detim> <reg> cell… }…     cell := F re im | I | N
+  ok <k> <p> <m> [W w…] [R <real>] { P <sing> <detre> <detim> <reg> cell… }…
+                                                                     cell := F re im | I | N
+  (`R`, dc only: is the result of `_dcgain` a real array; the cells of dc are those of `dcPost`)
 -/
 import CtrlVerif.Driver.FRD
 import CtrlVerif.Model.Eval
@@ -50,17 +54,34 @@ def showPoints (L : LTI C) (xs : List C) (Ms : List (Matrix (Fin L.p) (Fin L.m) 
     String :=
   String.intercalate " " ((List.zip xs Ms).map fun xm => showPoint L xm.1 xm.2)
 
-def pSys : P (LTI C) := do
+/-- a transfer function whose coefficients are Gaussian rationals (pairs `re im`). -/
+def pLeafLC : P (FOperand C) := do
+  let p ← pNat
+  let m ← pNat
+  let dt ← pDt
+  let ents ← pArray (p * m) (do
+    let nn ← pList pC
+    let dd ← pList pC
+    pure (⟨nn, dd⟩ : Frac C))
+  if ents.any (fun f => f.num.isEmpty || f.den.isEmpty) then throw "leaf:empty"
+  pure (.lti (.tf p m (fun i j => ents.getD (i.val * m + j.val) ⟨[0], [1]⟩) dt))
+
+/-- the system and whether its line carries complex coefficients (then the candidate polynomials
+of `poles` are lists of pairs too). -/
+def pSys : P (LTI C × Bool) := do
   let t ← tok
   let f ← match t with
     | "LT" => pLeafLT
+    | "LC" => pLeafLC
     | "LS" => pLeafLS
     | _ => throw s!"sys:{t}"
   match f with
-  | .lti L => pure L
+  | .lti L => pure (L, t == "LC")
   | _ => throw "sys"
 
 def pPoly : P (List C) := pList pRatC
+
+def pPolyC : P (List C) := pList pC
 
 def showPolyC (d : List C) : String :=
   toString d.length ++ String.join (d.map fun z => " " ++ showC z)
@@ -75,9 +96,11 @@ def sumRange (n m : Nat) : List (Fin n ⊕ Fin m) :=
 
 /-- `poles`:
   TF SISO: "poles"                → ok poly <den>
-  TF MIMO: "poles" {L cofs bezs}ₘ → ok polys m L…        (certificates checked)
+  TF MIMO: "poles" {L cofs bezs}ₘ → ok polys m L…        (certificates checked; coefficients are
+                                                          pairs `re im` on an `LC` line)
   SS     : "poles" cand           → ok empty | ok poly cand   (certificate checked) -/
-def opPoles (L : LTI C) : P String := do
+def opPoles (L : LTI C) (cplx : Bool) : P String := do
+  let pPoly := if cplx then pPolyC else pPoly
   match L with
   | .ss ns _ _ G _ =>
     let cand ← pPoly
@@ -143,6 +166,12 @@ def evalPoint : (L : LTI C) → C → Array C → Option (Matrix (Fin L.p) (Fin 
   | .tf _ _ e _, x, _ => some (tfHorner e x)
   | .ss _ _ m G _, x, v => ssHornerCert G x (Matrix.of fun i j => v.getD (i.val * m + j.val) 0)
 
+/-- the component patterns of `sys(x)` (what `_dcgain` inspects): recomputed for a transfer
+function, the two patterns of the singular branch for a state-space system. -/
+def toCx : (L : LTI C) → C → Matrix (Fin L.p) (Fin L.m) (IVal C) → Matrix (Fin L.p) (Fin L.m) (Cx C)
+  | .tf _ _ e _, x, _ => tfHornerCx partsQI e x
+  | .ss _ _ _ _ _, _, M => Matrix.of fun i j => ssCx (M i j)
+
 def evalPoints (L : LTI C) (xs : List C) (cands : List (Array C)) : Option String := do
   let mut out : List String := []
   for (x, v) in List.zip xs cands do
@@ -151,7 +180,7 @@ def evalPoints (L : LTI C) (xs : List C) (cands : List (Array C)) : Option Strin
   pure (String.intercalate " " out)
 
 def run : P String := do
-  let L ← pSys
+  let (L, cplx) ← pSys
   let op ← tok
   match op with
   | "call" =>
@@ -179,10 +208,14 @@ def run : P String := do
     | none => pure "model-error solve-certificate"
   | "dc" =>
     let cands ← pCands L 1
-    match evalPoints L [dcPoint L.dt] cands with
-    | some s => pure (s!"ok 1 {L.p} {L.m} " ++ s)
+    let x : C := dcPoint L.dt
+    match evalPoint L x (cands.headD #[]) with
+    | some M =>
+      -- `_dcgain`: evaluate, then the real-part post-processing
+      let r := dcPost partsQI (toCx L x M)
+      pure (s!"ok 1 {L.p} {L.m} R {if r.1 then 1 else 0} " ++ showPoint L x r.2)
     | none => pure "model-error solve-certificate"
-  | "poles" => opPoles L
+  | "poles" => opPoles L cplx
   | "zeros" => opZeros L
   | _ => throw s!"op:{op}"
 
